@@ -121,6 +121,12 @@ def run_dp(case, stt):
     # identity in the same basis: the very same samples
     same = lin if spec["pol"] == "linear" else cir
     check(bits_equal(arr(same), data), "conversion to the basis the signal is already in changed the samples")
+    # ... and, as documented, it is a copy of the signal OBJECT: re-labelling the result must not re-label the signal it came from
+    check(same is not z, "conversion to the basis already held returned the very same object (documented: a copy of the signal object)")
+    with lib("pol_type assignment on the result of an identity conversion"):
+        same.pol_type = "circular" if spec["pol"] == "linear" else "linear"
+    check(z.pol_type == spec["pol"], "assigning pol_type on the result of an identity conversion changed the original signal's pol_type to {!r}", z.pol_type)
+    same.pol_type = spec["pol"]
     # power per sample preserved, inverse restores
     ptol = rt * float(power.max()) * 2 if power.size else 0.0
     for s, w in ((l, "to_linear"), (c, "to_circular")):
